@@ -26,6 +26,18 @@ Theorem C19_schedule_independent : forall (loc val : Type) (owns : nat -> loc ->
     forall l, (exists i, owns i l) \/ shared loc owns l -> h1 l = h2 l.
 Proof. exact schedule_independent. Qed.
 
+(* non-vacuity: a concrete two-thread program (each thread adds the shared cell 2 to its own cell) meets the
+   ownership and footprint hypotheses, and its three complete schedules all end in the same heap *)
+Example C19_example :
+  (forall i j l : nat, ex_owns i l -> ex_owns j l -> i = j) /\
+  all_ok nat nat ex_owns ex_threads /\
+  (forall sched, In sched [[1; 0; 0]; [0; 0; 1]; [0; 1; 0]]%nat ->
+     complete nat nat (snd (run_sched nat nat sched ex_threads ex_heap)) /\
+     fst (run_sched nat nat sched ex_threads ex_heap) 0%nat = 10%nat /\
+     fst (run_sched nat nat sched ex_threads ex_heap) 1%nat = 5%nat /\
+     fst (run_sched nat nat sched ex_threads ex_heap) 2%nat = 5%nat).
+Proof. exact conc_example_full. Qed.
+
 Theorem C19_no_global_writes : globals_ok = true.
 Proof. vm_compute. reflexivity. Qed.
 
